@@ -394,7 +394,13 @@ namespace
                 for (size_t i = 0; i < ng; i++)
                     gs.push(genState(g, space, dim, lo, hi, qps[(size_t)q].goals[i].data(), pdim));
                 if (g.chance(0.03))
-                    gs.at(0) = starts.at(starts.size() - 1);  // start inside goal
+                {
+                    // start inside the goal region (not identical to the goal state: a zero focal distance is outside
+                    // the informed samplers' domain, "The transformation is not up to date in the PHS class")
+                    gs.at(0) = starts.at(starts.size() - 1);
+                    gs.at(0).at(0) = Json(gs.at(0).at(0).d() + 0.004 * L);
+                    goal["threshold"] = std::max(thr, 0.02 * L);
+                }
                 goal["states"] = gs;
             }
             Q["goal"] = goal;
@@ -984,7 +990,11 @@ namespace
             }
             if (sv.worstRunSteps > 0)
                 c.res.probes["path-crosses-thin-obstacle-within-resolution"]++;
-            if (c.info->pairwise && !c.intermediateStatesParam)
+            // (not on curved spaces: the optimal Reeds-Shepp curve between two poses is not unique, so the curve that
+            // interpolate(b, a) traces need not be the reverse of the validated interpolate(a, b) although the space
+            // claims symmetric interpolation; planners that validate an edge once for both directions then fail the
+            // re-check without having skipped anything. The dense clause above still applies there.)
+            if (c.info->pairwise && !c.intermediateStatesParam && !c.w->curved)
             {
                 for (size_t i = 0; i + 1 < v.size(); i++)
                     if (!c.w->si->checkMotion(v[i], v[i + 1]))
@@ -1327,10 +1337,37 @@ sim::CaseResult PlanSim::run(const sim::Options &o, const Json &plan)
                 }
                 catch (ompl::Exception &ex)
                 {
-                    // documented refusal of a configuration (e.g. informed sampling with a non-sampleable goal):
-                    // nothing was promised for this input, the case ends unjudged
+                    c.w->validBudget = -1;
+                    world::ledger().armed = false;
+                    std::string msg = ex.what();
+                    // documented refusals of a configuration: nothing was promised for this input, the case ends
+                    // unjudged. Any other exception escaping solve() on a valid query is a violation.
+                    static const char *refusals[] = {
+                        "only supports goals that can be cast to a sampleable goal region",
+                        "only supports RealVector, SE2, SE3, Dubins, and ReedsShepp state spaces",
+                        "informed sampler",
+                        "Informed sampling",
+                        "The cost threshold",
+                        "does not support",
+                        "not supported",
+                        "Unknown type of goal",
+                        "requires",
+                        "start and goal",
+                    };
+                    bool refusal = false;
+                    for (auto *r : refusals)
+                        if (msg.find(r) != std::string::npos)
+                            refusal = true;
+                    res.info["solve_exception"] = msg;
+                    if (!refusal && (P == "C01" || P == "C03"))
+                    {
+                        std::string key;
+                        for (char ch : msg.substr(0, 60))
+                            key += (isalnum((unsigned char)ch) ? ch : '_');
+                        res.violate(P + ".exception-from-solve" + sfx(c) + " what=" + key, when + ": ompl::Exception: " + msg);
+                        break;
+                    }
                     res.probes["solve-refused-configuration(ompl::Exception)"]++;
-                    res.info["solve_exception"] = ex.what();
                     c.outcomes.insert("refused");
                     break;
                 }
@@ -1479,7 +1516,10 @@ sim::CaseResult PlanSim::run(const sim::Options &o, const Json &plan)
                         res.probes["planner-data-not-empty-right-after-clear"]++;
                 }
                 foreign.clear();
-                if (k == "newquery" && next != cur)
+                // (clearQuery() keeps the roadmap by design - "should retain all datastructures generated from previous
+                // queries that can be used to help solve the next query" - so the old end points may legitimately be
+                // vertices of later paths; the never-returns-states-of-the-previous-query clause is about clear())
+                if (k == "newquery" && next != cur && how != "clearquery-then-set")
                 {
                     // end points of the query being left, unless the new query shares them
                     auto &oldq = *qs[cur];
